@@ -20,6 +20,8 @@ def run_rules(ctx, res):
     from ..report import Result as R2
     r8 = R2("C08", "quick", "other")
     c08_rules(syn, r8)
+    from .c08 import check_entry as c08_entry
+    c08_entry(ctx, r8)  # the text the spans index is the caller's own text (generate tokenises its argument unmodified)
     bad = r8.violations
     res.inst(SPAN, "C08-verdict", "", True, "C08 rules: %d instances, %d violations" % (len(r8.instances), len(bad)))
     for v in bad[:6]:
